@@ -389,7 +389,12 @@ fn sorted<T: Ord>(mut v: Vec<T>) -> Vec<T> {
 }
 
 /// Run one generated case on one host, in lock step with the reference.
-pub fn run_case(u: &Universe, cfg: &CaseCfg) -> Result<CaseInfo, String> {
+///
+/// `Err` lists *every* clause of the oracle that failed in the first failing call (in the order
+/// they were evaluated), so that the caller can report the failure of a clause it owns even when
+/// another clause fails in the same call. After a failed replay the reference is out of step and
+/// nothing further is evaluated.
+pub fn run_case(u: &Universe, cfg: &CaseCfg) -> Result<CaseInfo, Vec<String>> {
     let mut u = u.clone();
     crate::gen::sanitize(&mut u);
     let u = &u;
@@ -402,6 +407,7 @@ pub fn run_case(u: &Universe, cfg: &CaseCfg) -> Result<CaseInfo, String> {
     reference.world().tolerate_retaining = cfg.tolerate_retaining;
     let mut host = Host::new(cfg.host, uni.clone());
     let mut info = CaseInfo::default();
+    let mut l1 = crate::l1::L1::default();
 
     // the open requests as the shell sees them: path -> (kind, answered?)
     let mut open: BTreeMap<Path, Op> = BTreeMap::new();
@@ -420,158 +426,186 @@ pub fn run_case(u: &Universe, cfg: &CaseCfg) -> Result<CaseInfo, String> {
         let open_paths: Vec<Path> = open.keys().cloned().collect();
         // translate the abstract action into stamped trace events + host calls
         let mut expect: Option<Expect> = None;
-        let obs = match act {
-            Act::Start(p) => {
-                let prog = (p as usize % u.programs.len()) as u16;
-                host.send(Event::Start { uni: uni.id, prog })?
-            }
-            Act::Noop => host.send(Event::Noop)?,
-            Act::Resolve(c) => {
-                let cands: Vec<&Path> = open_paths.iter().filter(|p| open[*p].kind != NOTE).collect();
-                if cands.is_empty() {
-                    continue;
+        let called: Result<Obs, String> = (|| {
+            Ok(match act {
+                Act::Start(p) => {
+                    let prog = (p as usize % u.programs.len()) as u16;
+                    host.send(Event::Start { uni: uni.id, prog })?
                 }
-                let path = cands[pick(c, cands.len())].clone();
-                nonce += 1;
-                let out = Out::new(nonce);
-                expect = reference.expect_resolve(&path);
-                if let Some(rank) = issue_order.iter().position(|p| p == &path) {
-                    if rank < last_resolved_rank {
-                        info.out_of_order = true;
+                Act::Noop => host.send(Event::Noop)?,
+                Act::Resolve(c) => {
+                    let cands: Vec<&Path> = open_paths.iter().filter(|p| open[*p].kind != NOTE).collect();
+                    if cands.is_empty() {
+                        return Err(String::new());
                     }
-                    last_resolved_rank = rank;
-                }
-                sink.push(Tr::Resolve(path.clone(), out.clone()));
-                let obs = host.resolve(&path, out, open[&path].kind == REQ)?;
-                if open[&path].kind == REQ {
-                    open.remove(&path);
-                    answered.push(path);
-                } else if obs.resolve_ok == Some(false) {
-                    open.remove(&path);
-                    answered.push(path);
-                }
-                obs
-            }
-            Act::ResolveAgain(c) => {
-                let mut cands: Vec<Path> = answered.clone();
-                cands.extend(open_paths.iter().filter(|p| open[*p].kind == NOTE).cloned());
-                // byte hosts: once an id has been given to a later request it names that request
-                if !host.can_drop() {
-                    if !cfg.byte_late_resolves {
-                        continue;
-                    }
-                    cands.retain(|p| host.id_still_names(p));
-                }
-                if cands.is_empty() {
-                    continue;
-                }
-                let path = cands[pick(c, cands.len())].clone();
-                nonce += 1;
-                let out = Out::new(nonce);
-                info.late_resolves += 1;
-                if open.get(&path).map_or(false, |o| o.kind == NOTE) {
-                    expect = Some(Expect::Err); // a notification accepts no resolution; the reference has no cell for it
-                } else {
+                    let path = cands[pick(c, cands.len())].clone();
+                    nonce += 1;
+                    let out = Out::new(nonce);
                     expect = reference.expect_resolve(&path);
+                    if let Some(rank) = issue_order.iter().position(|p| p == &path) {
+                        if rank < last_resolved_rank {
+                            info.out_of_order = true;
+                        }
+                        last_resolved_rank = rank;
+                    }
                     sink.push(Tr::Resolve(path.clone(), out.clone()));
+                    let obs = host.resolve(&path, out, open[&path].kind == REQ)?;
+                    if open[&path].kind == REQ {
+                        open.remove(&path);
+                        answered.push(path);
+                    } else if obs.resolve_ok == Some(false) {
+                        open.remove(&path);
+                        answered.push(path);
+                    }
+                    obs
                 }
-                host.resolve(&path, out, false)?
-            }
-            Act::Drop(c) => {
-                if !host.can_drop() || open_paths.is_empty() {
-                    continue;
+                Act::ResolveAgain(c) => {
+                    let mut cands: Vec<Path> = answered.clone();
+                    cands.extend(open_paths.iter().filter(|p| open[*p].kind == NOTE).cloned());
+                    // byte hosts: once an id has been given to a later request it names that request
+                    if !host.can_drop() {
+                        if !cfg.byte_late_resolves {
+                            return Err(String::new());
+                        }
+                        cands.retain(|p| host.id_still_names(p));
+                    }
+                    if cands.is_empty() {
+                        return Err(String::new());
+                    }
+                    let path = cands[pick(c, cands.len())].clone();
+                    nonce += 1;
+                    let out = Out::new(nonce);
+                    info.late_resolves += 1;
+                    if open.get(&path).map_or(false, |o| o.kind == NOTE) {
+                        expect = Some(Expect::Err); // a notification accepts no resolution; the reference has no cell for it
+                    } else {
+                        expect = reference.expect_resolve(&path);
+                        sink.push(Tr::Resolve(path.clone(), out.clone()));
+                    }
+                    host.resolve(&path, out, false)?
                 }
-                let path = open_paths[pick(c, open_paths.len())].clone();
-                info.drops += 1;
-                if open[&path].kind != NOTE {
-                    sink.push(Tr::DropReq(path.clone())); // dropping a notification object means nothing to anybody
+                Act::Drop(c) => {
+                    if !host.can_drop() || open_paths.is_empty() {
+                        return Err(String::new());
+                    }
+                    let path = open_paths[pick(c, open_paths.len())].clone();
+                    info.drops += 1;
+                    if open[&path].kind != NOTE {
+                        sink.push(Tr::DropReq(path.clone())); // dropping a notification object means nothing to anybody
+                    }
+                    host.drop_request(&path);
+                    open.remove(&path);
+                    // a drop is not a call into the core: its consequences surface at the next call
+                    host.send(Event::Noop)?
                 }
-                host.drop_request(&path);
-                open.remove(&path);
-                // a drop is not a call into the core: its consequences surface at the next call
-                host.send(Event::Noop)?
-            }
-            Act::AbortCmd(c) => {
-                let slots = reference.abortable_slots();
-                if slots.is_empty() || legacy {
-                    continue;
+                Act::AbortCmd(c) => {
+                    let slots = reference.abortable_slots();
+                    if slots.is_empty() || legacy {
+                        return Err(String::new());
+                    }
+                    let slot = slots[pick(c, slots.len())];
+                    info.aborts += 1;
+                    sink.push(Tr::AbortGroup(slot));
+                    let hs: Vec<_> = uni.handles.lock().unwrap().iter().filter(|(s, _)| *s == slot).map(|(_, h)| h.clone()).collect();
+                    for h in hs {
+                        h();
+                    }
+                    host.send(Event::Noop)?
                 }
-                let slot = slots[pick(c, slots.len())];
-                info.aborts += 1;
-                sink.push(Tr::AbortGroup(slot));
-                let hs: Vec<_> = uni.handles.lock().unwrap().iter().filter(|(s, _)| *s == slot).map(|(_, h)| h.clone()).collect();
-                for h in hs {
-                    h();
+                Act::AbortTask(c) => {
+                    let keys = reference.exported_keys();
+                    if keys.is_empty() || legacy {
+                        return Err(String::new());
+                    }
+                    let key = keys[pick(c, keys.len())].clone();
+                    info.aborts += 1;
+                    sink.push(Tr::AbortTask(key.clone()));
+                    let hs: Vec<_> = uni.exports.lock().unwrap().iter().filter(|(k, _)| *k == key).map(|(_, h)| h.clone()).collect();
+                    for h in hs {
+                        (h.abort)();
+                    }
+                    host.send(Event::Noop)?
                 }
-                host.send(Event::Noop)?
-            }
-            Act::AbortTask(c) => {
-                let keys = reference.exported_keys();
-                if keys.is_empty() || legacy {
-                    continue;
-                }
-                let key = keys[pick(c, keys.len())].clone();
-                info.aborts += 1;
-                sink.push(Tr::AbortTask(key.clone()));
-                let hs: Vec<_> = uni.exports.lock().unwrap().iter().filter(|(k, _)| *k == key).map(|(_, h)| h.clone()).collect();
-                for h in hs {
-                    (h.abort)();
-                }
-                host.send(Event::Noop)?
-            }
+            })
+        })();
+        let obs = match called {
+            Ok(obs) => obs,
+            Err(e) if e.is_empty() => continue, // the action does not apply right now
+            Err(e) => return Err(vec![e]),
         };
         info.calls += 1;
 
-        // ---- judge the call
+        // ---- judge the call: first the model-free invariants, then the replay on the reference
         let trace = sink.take();
-        crate::l1::check_call(&trace, &obs, &uni)?;
-        reference.replay(&witness_only(&trace))?;
-        reference.obligations()?;
+        let mut fails = l1.check_call(&trace, &obs);
+        if let Err(e) = reference.replay(&witness_only(&trace)) {
+            fails.push(e);
+            return Err(fails); // the reference is out of step now
+        }
+        // what the tasks received (traced leaves): the reference, polled in the same order, must agree
+        {
+            let real = crate::l1::L1::deliveries_of(&trace);
+            let refd: Vec<(Path, u32)> = reference.take_delivered().into_iter().filter(|(p, _)| l1.traced_leaves.contains(p)).collect();
+            if sorted(real.clone()) != sorted(refd.clone()) {
+                let missing: Vec<_> = refd.iter().filter(|d| !real.contains(d)).collect();
+                let extra: Vec<_> = real.iter().filter(|d| !refd.contains(d)).collect();
+                fails.push(format!("the shell's resolutions reached other tasks than they should: according to the reference these (request, nonce) values are delivered in this call but the task received nothing: {missing:?}; delivered although the reference delivers nothing: {extra:?}"));
+            }
+        }
+        if let Err(e) = reference.obligations() {
+            fails.push(e);
+        }
         let (ref_effects, _ref_events) = reference.take_outputs();
         let got = sorted(obs.effects.clone());
         let want = sorted(ref_effects);
         if got != want {
-            return Err(format!("the call returned effects {got:?}, the reference semantics gives {want:?}"));
+            fails.push(format!("the call returned effects {got:?}, the reference semantics gives {want:?}"));
         }
-        {
-            let w = reference.world();
-            if !w.pending.is_empty() {
-                return Err(format!("events were emitted but not applied when the call returned: {:?}", w.pending));
-            }
-            info.max_events_in_call = info.max_events_in_call.max(w.applied.len() - applied_before);
-            applied_before = w.applied.len();
-            info.follow_ups = w.follow_ups as usize;
-            let log = sorted(host.view()?);
-            let applied = sorted(w.applied.clone());
-            if log != applied {
-                return Err(format!("the view shows {log:?}, the events applied according to the reference are {applied:?}"));
+        match host.view() {
+            Err(e) => fails.push(e),
+            Ok(view) => {
+                if let Some(e) = l1.check_view(&view) {
+                    fails.push(e);
+                }
+                let w = reference.world();
+                if !w.pending.is_empty() {
+                    fails.push(format!("events were emitted but not applied when the call returned: {:?}", w.pending));
+                }
+                info.max_events_in_call = info.max_events_in_call.max(w.applied.len() - applied_before);
+                applied_before = w.applied.len();
+                info.follow_ups = w.follow_ups as usize;
+                let log = sorted(view);
+                let applied = sorted(w.applied.clone());
+                if log != applied {
+                    fails.push(format!("the view shows {log:?}, the events applied according to the reference are {applied:?}"));
+                }
             }
         }
         if let (Some(want), Some(got)) = (expect, obs.resolve_ok) {
             if (want == Expect::Ok) != got {
-                return Err(format!("a resolution was {} but the reference expects it to be {}", if got { "accepted" } else { "rejected" }, if want == Expect::Ok { "accepted" } else { "rejected" }));
+                fails.push(format!("a resolution was {} but the reference expects it to be {}", if got { "accepted" } else { "rejected" }, if want == Expect::Ok { "accepted" } else { "rejected" }));
             }
         }
         if let Some(done) = host.is_done() {
             let want = reference.root_done();
             if done != want {
-                return Err(format!("is_done() = {done}, but according to the reference {}", if want { "nothing more can happen" } else { "work remains" }));
+                fails.push(format!("is_done() = {done}, but according to the reference {}", if want { "nothing more can happen" } else { "work remains" }));
             }
         }
         if uni.reentered.load(std::sync::atomic::Ordering::SeqCst) {
-            return Err("update was entered while another update was running".into());
+            fails.push("update was entered while another update was running".into());
         }
         if cfg.release_checks {
             use std::sync::atomic::Ordering::SeqCst;
             let (alive, unfinished) = (sink.wrappers_alive.load(SeqCst), sink.wrappers_unfinished.load(SeqCst));
             if alive != unfinished {
-                return Err(format!("[finished-task-retained] {} task futures that have finished are still held when the call returns", alive - unfinished));
+                fails.push(format!("[finished-task-retained] {} task futures that have finished are still held when the call returns", alive - unfinished));
             }
             if !legacy {
                 if let Some(n) = host.executor_tasks() {
                     let want = reference.live_hosted_commands();
                     if n != want {
-                        return Err(format!("[executor-occupancy] the core's executor holds {n} tasks, {want} commands returned by update are unfinished"));
+                        fails.push(format!("[executor-occupancy] the core's executor holds {n} tasks, {want} commands returned by update are unfinished"));
                     }
                 }
             }
@@ -591,11 +625,15 @@ pub fn run_case(u: &Universe, cfg: &CaseCfg) -> Result<CaseInfo, String> {
                                 info.tolerated.push(sig.to_string());
                             }
                         } else {
-                            return Err(format!("[{sig}] the bridge registry still holds id {id} ({kind}) although that request can no longer be resolved"));
+                            fails.push(format!("[{sig}] the bridge registry still holds id {id} ({kind}) although that request can no longer be resolved"));
+                            break;
                         }
                     }
                 }
             }
+        }
+        if !fails.is_empty() {
+            return Err(fails);
         }
         for op in obs.effects {
             info.max_effects_in_call = info.max_effects_in_call.max(got.len());
@@ -620,7 +658,7 @@ pub fn run_case(u: &Universe, cfg: &CaseCfg) -> Result<CaseInfo, String> {
     if cfg.release_checks {
         let alive = sink.wrappers_alive.load(std::sync::atomic::Ordering::SeqCst);
         if alive != 0 {
-            return Err(format!("[retained-after-drop] {alive} task futures still exist after the host was dropped"));
+            return Err(vec![format!("[retained-after-drop] {alive} task futures still exist after the host was dropped")]);
         }
     }
     drop(guard);
